@@ -225,6 +225,34 @@ func checkC13(c *km.Ctx) {
 	for _, rc := range s.RetCases(hp) {
 		v := km.Unwrap(rc.Results[0])
 		host, dom := ssa.Value(km.ParamAt(hp, 0)), ssa.Value(km.ParamAt(hp, 1))
+		if km.ValStr(v) != "false" {
+			// an empty entry of the domain list matches nothing: with it, "host == domain" holds for the empty
+			// host and the suffix test for every host that ends in a dot
+			nonEmpty := rc.State.All(func(k km.Conj) bool {
+				for _, f := range k.List() {
+					if f.Op == token.NEQ && km.Unwrap(f.X) == dom {
+						if cs, isC := km.ConstString(f.Y); isC && cs == "" {
+							return true
+						}
+					}
+					if lc, isL := f.X.(*ssa.Call); isL && f.Y != nil && km.CalleeFull(lc.Common()) == "builtin:len" && km.Unwrap(lc.Common().Args[0]) == dom {
+						if n, isN := km.ConstInt(f.Y); isN && ((f.Op == token.GTR && n >= 0) || (f.Op == token.GEQ && n >= 1) || (f.Op == token.NEQ && n == 0)) {
+							return true
+						}
+					}
+					if ix, isIx := f.X.(*ssa.Index); isIx && f.Op == token.EQL && km.Unwrap(ix.X) == dom {
+						return true // a byte of the domain was read on this path
+					}
+					if pc, isP := f.X.(*ssa.Call); isP && f.Op == token.ILLEGAL && f.Pol && km.CalleeFull(pc.Common()) == "strings.HasPrefix" && km.Unwrap(pc.Common().Args[0]) == dom {
+						if cs, isC := km.ConstString(pc.Common().Args[1]); isC && cs != "" {
+							return true
+						}
+					}
+				}
+				return false
+			})
+			r.Add("R-C13-3", km.FuncName(hp), "an empty domain matches nothing", posOf(c, rc.Ret), "domain != \"\" on every path to a return that can be true", clipS(rc.State.String(), 200), nonEmpty)
+		}
 		switch {
 		case km.ValStr(v) == "false":
 			continue
